@@ -158,6 +158,50 @@ def sideload_native():
     return mod
 
 
+def ensure_arena():
+    """Build the caching arena allocator shim (performance only; see sim/native/arena_cache.c)."""
+    src = os.path.join(VERIF, "sim", "native", "arena_cache.c")
+    h = hashlib.sha256(open(src, "rb").read()).hexdigest()[:12]
+    so = os.path.join(CACHE, "native", f"arena_cache-{h}.so")
+    if os.path.exists(so):
+        return so
+    with _Flock(os.path.join(CACHE, "arena.lock")):
+        if os.path.exists(so):
+            return so
+        os.makedirs(os.path.dirname(so), exist_ok=True)
+        for cc in ("cc", "gcc", "clang"):
+            if shutil.which(cc):
+                r = subprocess.run([cc, "-O2", "-shared", "-fPIC", "-o", so + ".tmp", src], capture_output=True, text=True)
+                if r.returncode == 0:
+                    os.replace(so + ".tmp", so)
+                    return so
+    return None
+
+
+_ARENA = []
+
+
+def install_arena():
+    """Route CPython's arena allocator through the caching shim (idempotent, best effort)."""
+    if _ARENA or os.environ.get("VERIF_NO_ARENA_CACHE") == "1":
+        return
+    try:
+        import ctypes
+        so = ensure_arena()
+        if so is None:
+            return
+
+        class _A(ctypes.Structure):
+            _fields_ = [("ctx", ctypes.c_void_p), ("alloc", ctypes.c_void_p), ("free", ctypes.c_void_p)]
+        lib = ctypes.CDLL(so)
+        a = _A(None, ctypes.cast(lib.verif_arena_alloc, ctypes.c_void_p),
+               ctypes.cast(lib.verif_arena_free, ctypes.c_void_p))
+        ctypes.pythonapi.PyObject_SetArenaAllocator(ctypes.byref(a))
+        _ARENA.extend([lib, a])
+    except Exception:  # noqa: BLE001 - purely an optimisation
+        pass
+
+
 _BOOTED = False
 
 
@@ -166,6 +210,7 @@ def boot_basilisp():
     global _BOOTED
     if _BOOTED:
         return
+    install_arena()
     sideload_native()
     import importlib
     from basilisp import main as bmain
